@@ -43,6 +43,11 @@ STRENGTH = {
  "C15-f": "refused pushes interleaved with polls and `extend` on full collections",
  "C16-f": "upstream items that wake themselves while completing (`up_modes = [Gate, WakeReady]`)",
  "C17-f": "(refused pushes and `extend`, as for C15-f)",
+ "C04-g": "universal alphabet pass: every free-form scenario of every property also gets refused/panicking pushes, `extend` (also with an empty iterator), task-waker changes and `PollHook` as deviations",
+ "C11-g": "(universal alphabet pass: `PollHook` in the merge scenarios of C11)",
+ "C12-g": "(universal alphabet pass: `extend([])` / `extend` in the C12 alphabets of the ordered queues)",
+ "C13-g": "`Ring` children (every poll wakes the next ring member, never itself) as a C13 population; a runaway poll is cut after 2000 polls of one child",
+ "C16-g": "a third kind of future from upstream (`ItemAlt`): futures that panic in `poll` among stalled and ready ones in the adapter scenarios of C09/C10/C16",
  "C08-f": "static Unpin matrix of the five adapters over a `!Unpin` upstream",
 }
 for d in sorted(glob.glob("/verif/seeded/C*")):
